@@ -55,7 +55,7 @@ def shards(tier):
 
 def floors(tier):
     f = {"cases": 15000, "cases_with_errors": 4000, "arrangements": 3000, "chains": 300, "inner_store_refs": 100,
-         "siblings_next_to_ref": 300, "hostile_name_resolutions": 2000, "recursive_cases": 1000, "recursive_with_asserting_siblings": 300, "near_identical_url_cases": 2000, "retrieval_uri_cases": 400,
+         "siblings_next_to_ref": 300, "hostile_name_resolutions": 2000, "recursive_cases": 1000, "recursive_with_asserting_siblings": 300, "near_identical_url_cases": 2000, "retrieval_uri_cases": 400, "id_collision_cases": 300,
          "recursion_depth3plus": 200, "model_crosschecks": 2000, "max_scope_depth": 3, "transform_selfcheck_ok": 3000, "foreign_id_keywords_on_path": 500, "relative_id_in_store_doc": 200, "reused_after_validate": 5000,
          "uri_calibration": 60}
     for m in ("noid", "rootid", "rootid#", "nested"):
@@ -260,6 +260,36 @@ def retrieval_uri_cases(ctx):
                             model=False)
 
 
+def id_collision_cases(ctx):
+    """A document served by a handler that DECLARES the id of another document (the root's, a stored one's): it is the
+    document at the URL it was fetched from and nothing else - references to the other URL keep designating the other
+    document, whichever is resolved first."""
+    INT, STR, ARR = {"type": "integer"}, {"type": "string"}, {"type": "array"}
+    for d in impl.DRAFTS:
+        idk = impl.IDKW[d]
+        other = "$id" if idk == "id" else "id"
+        S_URL = R.STORE_DIR + "kept.json"
+        for claim_kw in (idk, other):
+            for claimed in (R.ROOT_URL, R.ROOT_URL + "#", S_URL):
+                evil = {claim_kw: claimed, "definitions": {"x": ARR}, "type": "object"}
+                hdocs = {R.HANDLER_DIR + "evil.json": evil}
+                store = {S_URL: {"definitions": {"x": STR}, "type": "string"}}
+                for order in (("h", "l", "s", "s2"), ("l", "h", "s", "s2"), ("s", "h", "l", "s2"), ("h", "s2", "l", "s")):
+                    props = {"h": {"$ref": R.HANDLER_DIR + "evil.json"}, "l": {"$ref": "#/definitions/x"},
+                             "s": {"$ref": S_URL + "#/definitions/x"}, "s2": {"items": {"$ref": S_URL}}}
+                    S = {idk: R.ROOT_URL, "definitions": {"x": INT}, "properties": {k: props[k] for k in order}}
+                    docs = dict(store)
+                    docs.update(hdocs)
+                    try:
+                        S0 = R.inline(d, S, dict(docs))
+                    except R.InlineError:
+                        ctx.count("transform_selfcheck_failed")
+                        continue
+                    for inst in ({"h": {}, "l": "s", "s": 1, "s2": [1]}, {"h": 1, "l": 1, "s": "s", "s2": ["s"]}, {"l": []}, {"h": {}, "s": []}):
+                        ctx.count("id_collision_cases")
+                        compare(ctx, d, S, S0, store, hdocs, inst, {"probe": "fetched document declares another document's id", "refs": 1}, model=False)
+
+
 def near_identical_urls(ctx):
     """Two documents whose URLs differ only in the case of the path, a query string, a trailing slash or an escape are
     two documents: a reference to one is the schema written in THAT one."""
@@ -361,6 +391,8 @@ def run(ctx):
         near_identical_urls(ctx)
     if ctx.shard == 2 % ctx.nshards:
         retrieval_uri_cases(ctx)
+    if ctx.shard == 3 % ctx.nshards:
+        id_collision_cases(ctx)
     slog = ScopeLog()
     slog.install()
     try:
